@@ -233,6 +233,27 @@ def quad_moments(d, c, r):
     return Ey, Eyy - np.outer(Ey, Ey), Eyx - np.outer(Ey, mu)
 
 
+def _decoy_instance(d, p):
+    """ANOTHER instance of the same model class, other parameters, is asked for the three transformations of the VERY SAME
+    density object p first: state shared between instances (class- or module-level caches keyed by the argument's identity)
+    must not leak into the instance under test"""
+    one = Fr(1)
+    shift = lambda x: [shift(v) for v in x] if isinstance(x, list) else x + one
+    d2 = {k: v for k, v in d.items() if k not in ("Sig0", "np_params", "twice", "first")}
+    for k in ("M", "b", "c", "W"):
+        if k in d2 and d2[k] is not None:
+            d2[k] = shift(d2[k])
+    try:
+        mode = lin._MODE[0]; lin._MODE[0] = None       # a fresh object, outside the object-history bookkeeping
+        try:
+            c2, _ = build(d2)
+        finally:
+            lin._MODE[0] = mode
+        c2.affine_marginal_transformation(p); c2.affine_joint_transformation(p); c2.affine_conditional_transformation(p)
+    except Exception:
+        pass
+
+
 # ------------------------------------------------------------------ implementation
 def run_impl(d):
     import numpy as np
@@ -278,6 +299,7 @@ def run_impl(d):
             else:
                 lin.chk(fails, ["C16"], "expected exp noise", "HeteroscedasticExp._integrate_noise_diagonal", Dint, np.exp(lp))
     SEAMS[gtlib_fp(d)] = seam
+    _decoy_instance(d, p)          # another instance of the same class serves the very same p(x) object first
     pm = c.affine_marginal_transformation(p)
     pj = c.affine_joint_transformation(p)
     pc = c.affine_conditional_transformation(p)
